@@ -9,3 +9,7 @@ def run(ctx):
     vlib.proof_step(ctx)
     res = p2common.p2_run(ctx)
     p2common.p2_judge(ctx, res, PREFIXES, "Model/Proto2.v <-> the real v2 reconcilers (steps exercising C10)")
+    # the real southbound connection manager (the protocol model's LConnUp / LConnDown labels): model, refinement theorem
+    # and scenarios over real gRPC
+    from props import conn_extra
+    conn_extra.run_extra(ctx)
